@@ -83,6 +83,9 @@ def build_model(kind):
         R.EX_A.bounds = (0, 1000)
     elif kind == "empty_objective":
         R.EX_C.objective_coefficient = 0
+    elif kind == "gap":
+        # no route from B to C: growth needs a reaction from the universal model (gap filling has work to do)
+        R.r2.bounds = (0, 0)
     elif kind == "two_substrates":
         # two alternative external substrates (either suffices): exercises the exchange/medium code paths
         from cobra import Metabolite, Reaction
@@ -104,7 +107,7 @@ def build_model(kind):
     return m
 
 
-MODEL_KINDS = ["bench", "cycle", "infeasible", "unbounded", "zero_optimum", "empty_objective", "two_substrates"]
+MODEL_KINDS = ["bench", "cycle", "infeasible", "unbounded", "zero_optimum", "empty_objective", "two_substrates", "gap"]
 
 
 def analyses():
@@ -124,6 +127,7 @@ def analyses():
         u = Model("universal")
         r = Reaction("u1", lower_bound=0, upper_bound=10)
         r.add_metabolites({Metabolite("A", compartment="c"): -1, Metabolite("C", compartment="e"): 1})
+        r.gene_reaction_rule = "g2 and g3"  # genes the model already has
         u.add_reactions([r])
         return u
 
